@@ -23,13 +23,18 @@ import (
 	"verif/ref"
 	"verif/sim"
 	"verif/stats"
+	"verif/webfix"
 )
 
-func TestMain(m *testing.M) { stats.Main(m) }
+func TestMain(m *testing.M) {
+	webfix.Init() // registers storrent's HTTP handlers (outside any bubble)
+	stats.Main(m)
+}
 
 var opNames = []string{"GetStats", "GetAvailable", "DropPeer", "GetPeer", "GetPeers", "GetKnown", "GetKnowns",
 	"GetConf", "SetConf", "Request(want)", "Request(nowait)", "Request(withdraw)", "AddKnown", "Have", "BadPeer", "NewPeer",
-	"Kill", "tor.Announce", "Reader.Read", "Reader.ReadBlocked", "Reader.Close", "tor.Expire"}
+	"Kill", "tor.Announce", "Reader.Read", "Reader.ReadBlocked", "Reader.Close", "tor.Expire",
+	"HTTP front page", "HTTP ?q=peers", "HTTP ?q=delete", "HTTP ?q=set-torrent", "HTTP file GET"}
 
 var stopNames = []string{"already-dead", "queued-behind-goaway", "ahead-of-goaway", "ctx-cancel", "queue-full", "queue-full-ctx-cancel", "burst"}
 
@@ -128,6 +133,25 @@ func (w *world) runOp(name string, arg int) opResult {
 		r.err = rd.Close()
 	case "tor.Expire":
 		tor.Expire()
+	case "HTTP front page", "HTTP ?q=peers", "HTTP ?q=delete", "HTTP ?q=set-torrent", "HTTP file GET":
+		// the web UI's handlers, in process
+		h := t.Hash.String()
+		method, target := "GET", "/"
+		switch name {
+		case "HTTP ?q=peers":
+			target = "/?q=peers&hash=" + h
+		case "HTTP ?q=delete":
+			method, target = "POST", "/?q=delete&hash="+h
+		case "HTTP ?q=set-torrent":
+			method, target = "POST", "/?q=set-torrent&hash="+h+"&dht-mode=none&use-trackers=1"
+		case "HTTP file GET":
+			target = "/" + h + "/t"
+		}
+		resp, err := webfix.Do(method, "localhost:8088", target, nil, nil)
+		r.err = err
+		if err == nil && resp.Panic != nil {
+			r.err = fmt.Errorf("handler panicked: %v", resp.Panic)
+		}
 	default:
 		panic(name)
 	}
